@@ -207,6 +207,7 @@ type c13Scn struct {
 	DropEvery int    `json:"drop_every"`       // the outstanding count drops by one after every n-th poll
 	HS        string `json:"hs,omitempty"`     // handshake variant
 	Digis     int    `json:"digis"`
+	Deep      bool   `json:"deep,omitempty"` // small scenario explored one deviation deeper from the established connection on, in every tier
 	Mal       int    `json:"mal"`
 	MalWhen   int    `json:"mal_when,omitempty"` // malformed input arrives 0: once the registration was seen; 1: after OpenPortTCP returned, digested before the application dials; 2: on the established connection, while the application reads
 	Choices   []int  `json:"choices,omitempty"`
@@ -472,6 +473,7 @@ func c13Harness(sc c13Scn, o *c13Obs) func() {
 					tp.Close()
 					return
 				}
+				vs.Mark("connected")
 			}
 			switch sc.Kind {
 			case "inbound", "handshake":
@@ -700,6 +702,14 @@ func c13Scenarios(thorough bool) []c13Scn {
 		s.Seg = 3 + cut
 		out = append(out, s)
 	}
+	// small scenarios explored one deviation deeper (set-up on the default schedule, every schedule
+	// with up to two - thorough three - deviations from the established connection on)
+	out = append(out,
+		c13Scn{Kind: "outbound", Chunks: []int{1}, DropEvery: 1, Deep: true},
+		c13Scn{Kind: "outbound", Chunks: []int{300}, DropEvery: 2, Deep: true},
+		c13Scn{Kind: "inbound", Frames: []int{4}, DropEvery: 1, Deep: true},
+		c13Scn{Kind: "inbound", Frames: []int{4, 4}, DropEvery: 1, Deep: true},
+		c13Scn{Kind: "inbound", Frames: []int{4}, ReadBuf: 1, DropEvery: 1, Deep: true})
 	// bursts and late readers: the pipeline holds 10 + 1 + 1 frames
 	for _, k := range []int{1, 2, 3, 5, 11, 12, 13, 14} {
 		fs := make([]int, k)
@@ -775,6 +785,10 @@ func C13(args []string) {
 		maxBound := maxBound
 		if sc.Seg > 3 {
 			maxBound = 0
+		}
+		if sc.Deep {
+			e.FromMark, e.MaxExec = "connected", 80000
+			maxBound++
 		}
 		if sc.Kind == "malformed" && (sc.Mal == 3 || sc.Mal == 7) {
 			maxBound, e.MaxExec = 0, 20 // the library allocates the announced DataLen (up to 4 GiB) per execution
